@@ -523,7 +523,9 @@ func (g *genCtx) VerifyAccessors(s *Session, id string) []*FuncResult {
 		tstr := shortTypeKey(res.At(0).Type())
 		fc := &FuncContract{Name: name, Mode: "sequential", Opts: map[string]string{}, Props: []string{id}, NoPanicProps: []string{id, "C11", "C01"}}
 		recvName := fn.Params[0].Name()
-		rq, err1 := parseClause(recvName+" != nil", "generated", 0)
+		// the typed object wraps a non-nil raw object (generated constructors never build it otherwise)
+		raw := strings.TrimSuffix(anchor, ".Get")
+		rq, err1 := parseClause(recvName+" != nil && "+raw+" != nil", "generated", 0)
 		assume := fmt.Sprintf("res0 != nil ==> typeis(res0, %q)", tstr)
 		if res.Len() == 2 {
 			// typed future: a successfully completed call holds the typed adapter's (non-nil interface) value
